@@ -50,6 +50,24 @@ indexes are empty after `clear` — as long as the source's `clear` methods rese
 (`member_current_owner` was the one forgotten before the `fix:`). -/
 theorem C09_sym_clear_is_new (s : Sym.S) : Sym.clear s = Sym.S.new := Sym.clear_eq_new s
 
+open Module in
+/-- **C09 configuration change, then reindex.** After any history of index operations and `update_config`
+calls (patterns, moduleMap rules and `strict.requirePath` replaced entirely each time), `clear` followed by the
+live files' adds under the final configuration reaches exactly the state of a fresh index that was given the
+final configuration from the start — nothing of an earlier configuration survives. -/
+theorem C09_config_then_reindex_eq_fresh (cfg0 : Config) (h : List COp) (adds : List Op) (q : List Char) :
+    let cfgN := (runC cfg0 h).1
+    adds.foldl (step cfgN) (clear (runC cfg0 h).2) = run cfgN adds ∧
+    find cfgN (adds.foldl (step cfgN) (clear (runC cfg0 h).2)) q = find cfgN (run cfgN adds) q := by
+  intro cfgN
+  have h1 : adds.foldl (step cfgN) (clear (runC cfg0 h).2) = run cfgN adds := by
+    rw [Module.clear_eq_new]; rfl
+  exact ⟨h1, by rw [h1]⟩
+
+/-- `update_config` replaces the moduleMap rules: an empty map leaves no rule behind -/
+theorem C09_update_config_replaces_rules (cfg : Module.Config) (fz : Bool) (exts rp : List (List Char)) :
+    (Module.updateConfig cfg fz exts rp []).rules = [] := rfl
+
 namespace Db
 
 /-- **C09 `clear_is_new`.** `clear` leaves the empty index, field by field. -/
